@@ -143,43 +143,637 @@ def op_lowwrite(step, ctx):
     return [ev]
 
 
-OPS = {'lowwrite': op_lowwrite}
+
+# ----------------------------------------------------------------------------------------------------------------------
+# high-level API interpreter
+# ----------------------------------------------------------------------------------------------------------------------
+import datetime as _dt
+import hashlib
+import struct
+
+from objmodel import CLASSES, DTYPE_CODE
+
+
+def cps(s):
+    return [ord(c) for c in s]
+
+
+def f64_bytes(x):
+    return blist(struct.pack('>d', float(x)))
+
+
+def num_abs(x):
+    """Abstract a Python / numpy number: exact integer value (if any) and IEEE images (trusted conversions)."""
+    fx = float(x)
+    isint = (isinstance(x, (int, np.integer)) and not isinstance(x, bool)) or (fx == fx and fx not in (float('inf'), float('-inf')) and fx.is_integer() and abs(fx) < 2 ** 53)
+    out = {'k': 'num', 'isint': bool(isint), 'f64': f64_bytes(fx)}
+    out['iv'] = slimbs(int(x)) if isint else slimbs(0)
+    with np.errstate(all='ignore'):
+        f32 = np.float32(fx)
+    out['f32ok'] = bool(float(f32) == fx or (fx != fx))
+    out['f32'] = blist(struct.pack('>f', float(f32))) if (fx == fx) else blist(struct.pack('>f', float('nan')))
+    return out
+
+
+def dt_utc_fields(d):
+    u = d.astimezone(_dt.timezone.utc)
+    return {'k': 'dt', 'y': u.year, 'mo': u.month, 'd': u.day, 'h': u.hour, 'mi': u.minute, 's': u.second,
+            'us': u.microsecond}
+
+
+def to_py(v, ctx):
+    """valspec -> the Python object handed to the API."""
+    t = v['t']
+    if t == 'int':
+        return int(v['v'])
+    if t == 'bool':
+        return bool(v['v'])
+    if t == 'float':
+        return struct.unpack('>d', bytes.fromhex(v['bits']))[0]
+    if t == 'np':
+        return np.dtype(v['dtype']).type(v['v'])
+    if t == 'str':
+        return v['v']
+    if t == 'dt':
+        tz = None
+        if v.get('tzmin') is not None:
+            tz = _dt.timezone(_dt.timedelta(minutes=v['tzmin']))
+        return _dt.datetime(v['y'], v['mo'], v['d'], v['h'], v['mi'], v['s'], v.get('us', 0), tzinfo=tz)
+    if t == 'dtstr':
+        return v['v']
+    if t == 'ref':
+        return ctx['objs'][v['obj']]
+    if t == 'list':
+        return [to_py(x, ctx) for x in v['v']]
+    if t == 'tuple':
+        return tuple(to_py(x, ctx) for x in v['v'])
+    if t == 'enum':
+        from dliswriter.utils import enums
+        return getattr(getattr(enums, v['enum']), v['member'])
+    if t == 'setup':
+        from dliswriter import AttrSetup
+        return AttrSetup(value=to_py(v['value'], ctx) if v.get('value') is not None else None,
+                         units=to_py(v['units'], ctx) if v.get('units') is not None else None)
+    if t == 'dict':
+        d = {}
+        if v.get('value') is not None:
+            d['value'] = to_py(v['value'], ctx)
+        if v.get('units') is not None:
+            d['units'] = to_py(v['units'], ctx)
+        return d
+    if t == 'none':
+        return None
+    if t == 'object':
+        return object()
+    if t == 'bytes':
+        return bytes.fromhex(v['hex'])
+    if t == 'dtype':
+        return np.dtype(v['v']) if v.get('as') == 'dtype' else getattr(np, v['v'])
+    raise RuntimeError(f'unknown valspec {t}')
+
+
+def abs_scalar(v, ctx):
+    """valspec (scalar) -> abstract value for the specification (what the user *assigned*)."""
+    t = v['t']
+    if t in ('int', 'float', 'np', 'bool'):
+        return num_abs(to_py(v, ctx))
+    if t == 'str':
+        return {'k': 'str', 's': cps(v['v'])}
+    if t == 'enum':
+        return {'k': 'str', 's': cps(to_py(v, ctx).value)}
+    if t == 'dt':
+        return dt_utc_fields(to_py(v, ctx))
+    if t == 'dtstr':
+        fmt = "%Y/%m/%d %H:%M:%S" if '/' in v['v'] else "%Y.%m.%d %H:%M:%S"
+        return dt_utc_fields(_dt.datetime.strptime(v['v'], fmt))
+    if t == 'ref':
+        return {'k': 'ref', 'oid': ctx['oids'].get(v['obj'], 0)}
+    return {'k': 'other', 't': t}
+
+
+def flatten(v):
+    if v['t'] in ('list', 'tuple'):
+        out = []
+        for x in v['v']:
+            out.extend(flatten(x))
+        return out
+    return [v]
+
+
+def abs_attr(label, v, ctx):
+    """valspec of one keyword -> attribute expectation record."""
+    val, units = v, None
+    if v['t'] in ('setup', 'dict'):
+        val, units = v.get('value'), v.get('units')
+    rec = {'label': cps(label), 'has_val': val is not None and val['t'] != 'none', 'val': [], 'has_units': False,
+           'units': [], 'judge': not v.get('nojudge', False)}
+    if rec['has_val']:
+        rec['val'] = [abs_scalar(x, ctx) for x in flatten(val)]
+    if units is not None and units['t'] != 'none':
+        rec['has_units'] = True
+        rec['units'] = cps(to_py(units, ctx).value if units['t'] == 'enum' else units['v'])
+    return rec
+
+
+def hc_flag():
+    from dliswriter.configuration import global_config
+    return bool(global_config.high_compat_mode)
+
+
+def op_new_file(step, ctx):
+    from dliswriter import DLISFile
+    ev = {'op': 'new_file', 'fid': step['fid'], 'vrl': step.get('vrl', 8192), 'seq': step.get('seq', 1),
+          'setid': cps(step.get('setid', 'MAIN-STORAGE-UNIT'))}
+    try:
+        kw = {}
+        if 'vrl' in step:
+            kw['max_record_length'] = step['vrl']
+        if 'seq' in step:
+            kw['sul_sequence_number'] = step['seq']
+        if 'setid' in step:
+            kw['set_identifier'] = step['setid']
+        ctx['files'][step['fid']] = DLISFile(**kw)
+        ev['outcome'] = 'ok'
+    except Exception as e:  # noqa
+        ev['outcome'] = 'raised'
+        ev['exc'] = exc_text(e)
+    ev['hc'] = hc_flag()
+    return [ev]
+
+
+def op_add_lf(step, ctx):
+    ev = {'op': 'add_lf', 'fid': step['fid'], 'lf': step['lf'], 'fh_id': cps(step.get('fh_id', 'FILE-HEADER')),
+          'fh_seq_dec': cps(str(step.get('fh_seq', 1)))}
+    try:
+        kw = {}
+        if 'fh_id' in step:
+            kw['fh_id'] = step['fh_id']
+        if 'fh_seq' in step:
+            kw['fh_sequence_number'] = step['fh_seq']
+        ctx['lfs'][step['lf']] = ctx['files'][step['fid']].add_logical_file(**kw)
+        ctx['lf_fid'][step['lf']] = step['fid']
+        ev['outcome'] = 'ok'
+    except Exception as e:  # noqa
+        ev['outcome'] = 'raised'
+        ev['exc'] = exc_text(e)
+    ev['hc'] = hc_flag()
+    return [ev]
+
+
+def make_array(spec):
+    """arrayspec -> (array handed to the API, base buffer owner for the before/after observation)."""
+    dt = np.dtype(spec['dtype'])
+    shape = tuple(spec['shape'])
+    raw = bytes.fromhex(spec['hex'])
+    base = np.frombuffer(raw, dtype=dt).reshape(shape).copy()
+    lay = spec.get('layout', 'C')
+    if lay == 'C':
+        return base, base
+    if lay == 'F':
+        a = np.asfortranarray(base)
+        return a, a
+    if lay == 'readonly':
+        base.setflags(write=False)
+        return base, base
+    if lay == 'strided':
+        big = np.zeros((shape[0] * 2,) + shape[1:], dtype=dt)
+        big[::2] = base
+        big[1::2] = base[::-1] if shape[0] > 1 else base
+        return big[::2], big
+    if lay == 'view':
+        big = np.zeros((shape[0] + 4,) + shape[1:], dtype=dt)
+        big.view(np.uint8).reshape(-1)[:] = 0xA5
+        big[2:2 + shape[0]] = base
+        return big[2:2 + shape[0]], big
+    raise RuntimeError(f'unknown layout {lay}')
+
+
+def get_array(aid, ctx):
+    if aid not in ctx['arrays']:
+        a, owner = make_array(ctx['prog']['arrays'][aid])
+        ctx['arrays'][aid] = (a, owner)
+    return ctx['arrays'][aid][0]
+
+
+def op_add(step, ctx):
+    cls = step['cls']
+    set_type = CLASSES[cls][0]
+    table = CLASSES[cls][2]
+    lf = ctx['lfs'].get(step['lf'])
+    oid = ctx['next_oid']
+    ctx['next_oid'] += 1
+    ev = {'op': 'add', 'fid': ctx['lf_fid'].get(step['lf'], 0), 'lf': step['lf'], 'cls': cps(set_type), 'oid': oid,
+          'name': cps(step['name']) if isinstance(step['name'], str) else [],
+          'has_setname': step.get('set_name') is not None, 'setname': cps(step.get('set_name') or ''),
+          'origin': step.get('origin_reference') if step.get('origin_reference') is not None else -1,
+          'attrs': [], 'has_data': False}
+    kw = {}
+    try:
+        for k, v in step.get('kw', {}).items():
+            if k in table:
+                ev['attrs'].append(abs_attr(table[k][1], v, ctx))
+            kw[k] = to_py(v, ctx)
+        if step.get('set_name') is not None:
+            kw['set_name'] = step['set_name']
+        if step.get('origin_reference') is not None:
+            kw['origin_reference'] = step['origin_reference']
+        if cls == 'channel':
+            if step.get('data') is not None:
+                kw['data'] = get_array(step['data'], ctx)
+                ev['has_data'] = True
+            if step.get('dataset_name') is not None:
+                kw['dataset_name'] = step['dataset_name']
+            if step.get('cast_dtype') is not None:
+                kw['cast_dtype'] = to_py(step['cast_dtype'], ctx)
+        for k, v in step.get('rawkw', {}).items():   # deliberately ill-typed arguments (rejected-call scenarios)
+            kw[k] = to_py(v, ctx)
+    except KeyError as e:
+        ev['outcome'] = 'raised'
+        ev['exc'] = 'harness: unresolved reference ' + str(e)
+        ev['hc'] = hc_flag()
+        ev['proj'] = {'copy': -1, 'origin': -1, 'dataset': []}
+        return [ev]
+    try:
+        name = step['name'] if not isinstance(step['name'], dict) else to_py(step['name'], ctx)
+        item = getattr(lf, 'add_' + cls)(name, **kw)
+        ctx['objs'][step['ref']] = item
+        ctx['oids'][step['ref']] = oid
+        ev['outcome'] = 'ok'
+        orr = item.origin_reference
+        ev['proj'] = {'copy': int(item.copy_number), 'origin': -1 if orr is None else int(orr),
+                      'dataset': cps(item.dataset_name) if cls == 'channel' else []}
+    except Exception as e:  # noqa
+        ev['outcome'] = 'raised'
+        ev['exc'] = exc_text(e)
+        ev['proj'] = {'copy': -1, 'origin': -1, 'dataset': []}
+    ev['hc'] = hc_flag()
+    return [ev]
+
+
+def op_set(step, ctx):
+    """Later assignment: item.<attr>.value = v  /  item.<attr>.units = u  /  item.origin_reference = n."""
+    ev = {'op': 'set', 'oid': ctx['oids'].get(step['obj'], 0), 'part': step['part'], 'label': [], 'val': [],
+          'units': [], 'origin': -1}
+    try:
+        item = ctx['objs'][step['obj']]
+        if step['part'] == 'origin_reference':
+            ev['origin'] = step['v']
+            item.origin_reference = step['v']
+        else:
+            attr = getattr(item, step['attr'])
+            ev['label'] = cps(attr.label)
+            if step['part'] == 'value':
+                ev['val'] = [abs_scalar(x, ctx) for x in flatten(step['val'])]
+                ev['judge'] = not step['val'].get('nojudge', False)
+                attr.value = to_py(step['val'], ctx)
+            else:
+                u = step['val']
+                ev['units'] = cps(to_py(u, ctx).value if u['t'] == 'enum' else u['v'])
+                attr.units = to_py(u, ctx)
+        ev['outcome'] = 'ok'
+    except Exception as e:  # noqa
+        ev['outcome'] = 'raised'
+        ev['exc'] = exc_text(e)
+    ev['hc'] = hc_flag()
+    return [ev]
+
+
+def op_nofmt_data(step, ctx):
+    p = step['payload']
+    raw = bytes.fromhex(p['hex'])
+    ev = {'op': 'nofmt_data', 'lf': step['lf'], 'oid': ctx['oids'].get(step['obj'], 0), 'kind': p['kind']}
+    try:
+        if p['kind'] == 'str':
+            data = raw.decode('latin-1')
+            ev['payload'] = [ord(c) for c in data]
+        elif p['kind'] == 'bytearray':
+            data = bytearray(raw)
+            ev['payload'] = blist(raw)
+        else:
+            data = raw
+            ev['payload'] = blist(raw)
+        ctx['lfs'][step['lf']].add_no_format_frame_data(ctx['objs'][step['obj']], data)
+        ev['outcome'] = 'ok'
+    except Exception as e:  # noqa
+        ev['outcome'] = 'raised'
+        ev['exc'] = exc_text(e)
+        ev.setdefault('payload', [])
+    ev['hc'] = hc_flag()
+    return [ev]
+
+
+def op_hc(step, ctx):
+    from dliswriter import high_compatibility_mode
+    ev = {'op': step['op']}
+    try:
+        if step['op'] == 'hc_enter':
+            cm = high_compatibility_mode()
+            cm.__enter__()
+            ctx['hc'].append(cm)
+        elif step['op'] == 'hc_exit':
+            ctx['hc'].pop().__exit__(None, None, None)
+        elif step['op'] == 'hc_exit_exc':
+            cm = ctx['hc'].pop()
+            try:
+                raise KeyError('scenario exception inside the context')
+            except KeyError as exc:
+                cm.__exit__(type(exc), exc, exc.__traceback__)
+        ev['outcome'] = 'ok'
+    except Exception as e:  # noqa
+        ev['outcome'] = 'raised'
+        ev['exc'] = exc_text(e)
+    ev['hc'] = hc_flag()
+    return [ev]
+
+
+def op_hc_decorated(step, ctx):
+    """Run sub-steps inside a function wrapped by high_compatibility_mode_decorator."""
+    from dliswriter.utils.high_compatibility_mode import high_compatibility_mode_decorator
+    events = [{'op': 'hc_enter', 'outcome': 'ok', 'hc': True, 'decorator': True}]
+    boom = step.get('raise_inside', False)
+
+    @high_compatibility_mode_decorator
+    def body():
+        events[0]['hc'] = hc_flag()
+        for st in step['steps']:
+            events.extend(OPS[st['op']](st, ctx))
+        if boom:
+            raise KeyError('scenario exception inside the decorated function')
+
+    try:
+        body()
+    except KeyError:
+        pass
+    events.append({'op': 'hc_exit', 'outcome': 'ok', 'hc': hc_flag(), 'decorator': True})
+    return events
+
+
+def be_bytes(a, cast):
+    """Expected image of one row-slot: declared cast, big-endian, C order (numpy conversions are trusted)."""
+    x = np.ascontiguousarray(a)
+    if cast is not None:
+        with np.errstate(all='ignore'):
+            x = x.astype(cast)
+    return blist(x.astype(x.dtype.newbyteorder('>')).tobytes())
+
+
+def small_int(x):
+    try:
+        fx = float(x)
+        if fx == fx and abs(fx) < 2 ** 30 and fx.is_integer():
+            return True, int(fx)
+    except Exception:  # noqa
+        pass
+    return False, 0
+
+
+def expected_frames(step, ctx, frm, to):
+    out = []
+    for fe in step.get('expect', []):
+        chans = []
+        arrs = []
+        for c in fe['chans']:
+            present = c.get('arr') is not None
+            a = get_array(c['arr'], ctx) if present else None
+            cast = np.dtype(c['cast']) if c.get('cast') else None
+            dtn = (cast or a.dtype).name if present else ''
+            chans.append({'oid': ctx['oids'].get(c['ch'], 0), 'present': present,
+                          'rows': int(a.shape[0]) if present and a.ndim > 0 else 0,
+                          'ndim': int(a.ndim) if present else 0,
+                          'dtype': cps(dtn), 'code': DTYPE_CODE.get(dtn, 0),
+                          'srcsigned': bool(present and np.issubdtype((cast or a.dtype), np.signedinteger)),
+                          'dims': [int(x) for x in a.shape[1:]] if present and a.ndim > 1 else [1]})
+            arrs.append((a, cast))
+        rec = {'oid': ctx['oids'].get(fe['frame'], 0), 'chans': chans, 'rows': [], 'has_rows': False,
+               'index': {'ok': False, 'vals': []}}
+        ok = all(c['present'] and c['code'] and 1 <= c['ndim'] <= 2 for c in chans) and len({c['rows'] for c in chans}) == 1
+        if ok:
+            n = chans[0]['rows']
+            t = n if to is None else to
+            if 0 <= frm < t <= n:
+                rec['rows'] = [[be_bytes(a[i], cast) for a, cast in arrs] for i in range(frm, t)]
+                rec['has_rows'] = True
+                a0, cast0 = arrs[0]
+                if a0.ndim == 1:
+                    vals = [small_int((a0[i] if cast0 is None else a0[i].astype(cast0))) for i in range(frm, t)]
+                    if all(v[0] for v in vals):
+                        rec['index'] = {'ok': True, 'vals': [slimbs(v[1]) for v in vals]}
+        out.append(rec)
+    return out
+
+
+def snapshot_caller(ctx, extra_files):
+    snap = []
+    for aid, (a, owner) in sorted(ctx['arrays'].items()):
+        snap.append({'id': aid, 'b': blist(np.ascontiguousarray(owner).view(np.uint8).reshape(-1).tobytes())
+                     if owner.dtype.names is None else blist(owner.tobytes())})
+    for name, path in extra_files:
+        h = hashlib.sha256()
+        try:
+            with open(path, 'rb') as f:
+                h.update(f.read())
+        except OSError:
+            pass
+        snap.append({'id': name, 'b': blist(h.digest())})
+    return snap
+
+
+def build_data(step, ctx):
+    """Build the `data` argument of write() according to the route; returns (data, files to watch, dict identity)."""
+    d = step.get('data') or {'route': 'none'}
+    route = d['route']
+    if route == 'none':
+        return None, [], None
+    amap = d.get('map', {})     # dataset name -> array id
+    if route == 'dict':
+        dd = {k: get_array(aid, ctx) for k, aid in amap.items()}
+        return dd, [], dd
+    if route == 'struct':
+        fields = []
+        arrs = {}
+        for k, aid in amap.items():
+            a = get_array(aid, ctx)
+            arrs[k] = a
+            fields.append((k, a.dtype) if a.ndim == 1 else (k, a.dtype, a.shape[1:]))
+        n = min(a.shape[0] for a in arrs.values()) if arrs else 0
+        sa = np.zeros(n, dtype=fields)
+        for k, a in arrs.items():
+            sa[k] = a[:n]
+        ctx['arrays']['__struct__'] = (sa, sa)
+        return sa, [], None
+    if route == 'h5':
+        import h5py
+        path = os.path.join(ctx['dir'], d.get('fname', 'data.h5'))
+        with h5py.File(path, 'w') as f:
+            for k, aid in amap.items():
+                f.create_dataset(k, data=np.ascontiguousarray(get_array(aid, ctx)))
+        return path, [('h5file', path)], None
+    if route == 'object':
+        return object(), [], None
+    raise RuntimeError('unknown route')
+
+
+def op_write(step, ctx):
+    o = step.get('opts', {})
+    frm, to = o.get('from', 0), o.get('to')
+    ev = {'op': 'write', 'fid': step['fid'],
+          'opts': {'in_chunk': o.get('in_chunk') or 0, 'out_chunk': int(o.get('out_chunk') or 0),
+                   'from': frm, 'to': -1 if to is None else to,
+                   'route': (step.get('data') or {}).get('route', 'none')},
+          'watch': bool(step.get('watch_disk')), 'prior': -1 if step.get('prior') is None else step['prior'],
+          'fresh': bool(ctx.get('fresh')),
+          'claim': {'valid': bool(step.get('valid', False)), 'mustraise': step.get('mustraise', ''),
+                    'hc_breach': step.get('hc_breach', ''), 'either': bool(step.get('either', False))}}
+    path = os.path.join(ctx['dir'], step.get('fname', f"out{step['fid']}.dlis"))
+    if step.get('prior') is not None:
+        with open(path, 'wb') as f:
+            f.write(bytes((i * 13 + 5) % 256 for i in range(step['prior'])))
+    try:
+        data, watch_files, ddict = build_data(step, ctx)
+        ev['frames'] = expected_frames(step, ctx, frm, to)
+    except Exception as e:  # noqa
+        ev['outcome'] = 'raised'
+        ev['exc'] = 'harness: ' + exc_text(e)
+        ev['frames'] = []
+        ev['hc'] = hc_flag()
+        ev['caller'] = {'before': [], 'after': [], 'keys_same': True}
+        return [ev]
+    before = snapshot_caller(ctx, watch_files)
+    keys_before = list(ddict.keys()) if ddict is not None else []
+    ids_before = [id(v) for v in ddict.values()] if ddict is not None else []
+    tap = Tap()
+    tap.read_disk = ev['watch']
+    _hooks.sinks.append(tap)
+    kw = {}
+    if 'in_chunk' in o:
+        kw['input_chunk_size'] = o['in_chunk']
+    oc = o.get('out_chunk', 65536)
+    kw['output_chunk_size'] = float(oc) if o.get('out_chunk_float') and oc is not None else oc
+    if data is not None:
+        kw['data'] = data
+    if 'from' in o:
+        kw['from_idx'] = frm
+    if 'to' in o:
+        kw['to_idx'] = to
+    try:
+        ctx['files'][step['fid']].write(path, **kw)
+        ev['outcome'] = 'ok'
+        raw = read_file(path) or b''
+        ev['file'] = {'bytes': blist(raw), 'total': tap.flushes[-1]['total'] if tap.flushes else -1,
+                      'tap': [{'eflr': x['eflr'], 'type': x['type'], 'body': x['body']} for x in tap.lr],
+                      'flushes': tap.flushes}
+    except Exception as e:  # noqa
+        ev['outcome'] = 'raised'
+        ev['exc'] = exc_text(e)
+    finally:
+        _hooks.sinks.remove(tap)
+    after = snapshot_caller(ctx, watch_files)
+    ev['caller'] = {'before': before, 'after': after,
+                    'keys_same': (ddict is None) or (list(ddict.keys()) == keys_before
+                                                     and [id(v) for v in ddict.values()] == ids_before)}
+    ev['hc'] = hc_flag()
+    return [ev]
+
+
+def op_encode(step, ctx):
+    """Call the public write_struct dispatch (and optionally a helper) on one value."""
+    from dliswriter.utils.internal.struct_writer import write_struct
+    from dliswriter.utils.internal.internal_enums import RepresentationCode
+    out = []
+    for c in step['cases']:
+        ev = {'op': 'encode', 'code': c['code'], 'val': c['abs']}
+        try:
+            code = RepresentationCode(c['code'] if c['code'] != 27 else 19)   # UNITS is written as IDENT by this writer
+            v = c['py']
+            if v['t'] == 'obname':
+                class _P:
+                    set_type = v.get('type', 'CHANNEL')
+
+                class _O:
+                    pass
+                ob = _O()
+                ob.origin_reference, ob.copy_number, ob.name, ob.parent = v['origin'], v['copy'], v['name'], _P()
+                ob.obname = None
+                if c['code'] == 24:
+                    from dliswriter.utils.internal.struct_writer import write_struct_obname
+                    ob.obname = write_struct_obname(ob)
+                pyv = ob
+            else:
+                pyv = to_py(v, ctx)
+            b = write_struct(code, pyv)
+            ev['outcome'] = 'ok'
+            ev['bytes'] = blist(b)
+        except Exception as e:  # noqa
+            ev['outcome'] = 'raised'
+            ev['exc'] = exc_text(e)
+            ev['bytes'] = []
+        out.append(ev)
+    return out
+
+
+OPS = {'lowwrite': op_lowwrite, 'new_file': op_new_file, 'add_lf': op_add_lf, 'add': op_add, 'set': op_set,
+       'nofmt_data': op_nofmt_data, 'hc_enter': op_hc, 'hc_exit': op_hc, 'hc_exit_exc': op_hc,
+       'hc_decorated': op_hc_decorated, 'write': op_write, 'encode': op_encode}
 
 
 def run_program(prog):
-    """Run one program (in the current process) and return its trace."""
+    """Run one (single-process) program in the current process and return its events."""
+    if prog.get('tz'):
+        os.environ['TZ'] = prog['tz']
+        time.tzset()
+    if prog.get('np_seed') is not None:
+        np.random.seed(prog['np_seed'])
     events = []
     with tempfile.TemporaryDirectory(prefix='drv', dir=prog.get('_tmp') or None) as d:
-        ctx = {'dir': d, 'objs': {}, 'files': {}, 'lfs': {}, 'hc': []}
+        ctx = {'dir': d, 'objs': {}, 'oids': {}, 'files': {}, 'lfs': {}, 'lf_fid': {}, 'hc': [], 'arrays': {},
+               'prog': prog, 'next_oid': prog.get('_oid0', 1), 'fresh': prog.get('_fresh', False)}
         for step in prog['steps']:
             fn = OPS.get(step['op'])
             if fn is None:
                 raise RuntimeError(f"unknown op {step['op']}")
-            events.extend(fn(step, ctx))
-    return {'id': prog['id'], 'events': events}
+            evs = fn(step, ctx)
+            for e in evs:
+                e['proc'] = prog.get('_proc', 1)
+            events.extend(evs)
+        while ctx['hc']:   # leave any context still open (scenario ended inside it)
+            ctx['hc'].pop().__exit__(None, None, None)
+    return events
 
 
-def _child(prog):
+def _child(task):
     try:
         if not HOOKS_OK:
-            return {'id': prog['id'], 'machinery_error': 'hooks are not enabled in the imported dliswriter'}
-        return run_program(prog)
+            return {'machinery_error': 'hooks are not enabled in the imported dliswriter'}
+        return {'events': run_program(task)}
     except BaseException as e:  # noqa
-        return {'id': prog['id'], 'machinery_error': ''.join(traceback.format_exception(type(e), e, e.__traceback__))[-2000:]}
+        return {'machinery_error': ''.join(traceback.format_exception(type(e), e, e.__traceback__))[-2000:]}
 
 
 def run_batch(programs, jobs=16, tmp=None):
-    """Run every program in its own pristine fork; returns the list of traces (same order)."""
+    """Run every program; each process of a program (`procs`, default one) runs in its own pristine fork.
+
+    Returns the list of traces {'id', 'events'} in the order of `programs`."""
     if not programs:
         return []
-    for p in programs:
-        p['_tmp'] = tmp
+    tasks, owner = [], []
+    for pi, p in enumerate(programs):
+        procs = p.get('procs') or [{'steps': p['steps']}]
+        for k, pr in enumerate(procs):
+            t = {'id': p['id'], 'steps': pr['steps'], 'arrays': p.get('arrays', {}), 'tz': p.get('tz'),
+                 'np_seed': p.get('np_seed'), '_tmp': tmp, '_proc': k + 1, '_oid0': 1000 * k + 1,
+                 '_fresh': bool(pr.get('fresh'))}
+            tasks.append(t)
+            owner.append(pi)
     ctx = mp.get_context('fork')
-    with ctx.Pool(processes=min(jobs, max(1, len(programs))), maxtasksperchild=1) as pool:
-        out = pool.map(_child, programs, chunksize=1)
-    for p in programs:
-        p.pop('_tmp', None)
-    return out
+    with ctx.Pool(processes=min(jobs, max(1, len(tasks))), maxtasksperchild=1) as pool:
+        res = pool.map(_child, tasks, chunksize=1)
+    traces = [{'id': p['id'], 'events': []} for p in programs]
+    for pi, r in zip(owner, res):
+        if 'machinery_error' in r:
+            traces[pi]['machinery_error'] = r['machinery_error']
+        else:
+            traces[pi]['events'].extend(r['events'])
+    return traces
 
 
 if __name__ == '__main__':
